@@ -14,6 +14,7 @@ import numpy as np
 from vlib import sigfile
 from vlib.core import exc_site, fmt_exc
 
+AUDIT_INPUT_FILES = True   # after every case the driver verifies that the synthesised input files still hold their bytes
 PROPERTY = "C08"
 LEVEL = "exploration"
 CLAIM = {
